@@ -39,6 +39,8 @@ struct St {
     /// the step may multiply
     allow_level: u8,
     heavy: bool,
+    /// may the step being generated take a 0-dimensional tensor as an operand
+    allow_t0: bool,
 }
 
 fn elems(shape: &Sh) -> usize {
@@ -82,7 +84,7 @@ fn values(g: &mut Gen, n: usize) -> String {
 
 impl St {
     fn new(ntapes: usize) -> St {
-        St { ntapes, conts: vec![], epochs: vec![0; ntapes], next: 0, derivs: 0, load: vec![0; ntapes], allow_level: 1, heavy: true }
+        St { ntapes, conts: vec![], epochs: vec![0; ntapes], next: 0, derivs: 0, load: vec![0; ntapes], allow_level: 1, heavy: true, allow_t0: false }
     }
 
     fn fresh_name(&mut self) -> String {
@@ -92,7 +94,10 @@ impl St {
 
     fn live(&self, k: usize) -> bool {
         let c = &self.conts[k];
-        c.usable && c.level <= self.allow_level && c.tape.map(|t| c.epoch == self.epochs[t]).unwrap_or(true)
+        c.usable
+            && c.level <= self.allow_level
+            && (self.allow_t0 || !c.shape.is_empty())
+            && c.tape.map(|t| c.epoch == self.epochs[t]).unwrap_or(true)
     }
 
     fn live_ids(&self) -> Vec<usize> {
@@ -147,6 +152,9 @@ fn candidate_views(g: &mut Gen, c: &CInfo) -> Vec<ViewSpec> {
             v.push(ViewSpec::Acc(p.clone()));
             v.push(ViewSpec::Tr(p));
         }
+        let mut names: Vec<&'static str> = TNAMES.to_vec();
+        g.rng.shuffle(&mut names);
+        v.push(ViewSpec::Rn(vec![names[0], names[1]]));
     }
     for f in [[true, false], [false, true], [true, true]] {
         v.push(ViewSpec::Rev(f.to_vec()));
@@ -170,6 +178,7 @@ fn view_kind(v: &ViewSpec) -> &'static str {
         ViewSpec::Tr(_) => "tr",
         ViewSpec::Rg(_) => "rg",
         ViewSpec::Rev(_) => "rev",
+        ViewSpec::Rn(_) => "rn",
     }
 }
 
@@ -185,6 +194,9 @@ fn pick_view(g: &mut Gen, c: &CInfo, role: &str, basic_only: bool) -> (ViewSpec,
     let mut cands = candidate_views(g, c);
     if basic_only {
         cands.retain(|v| v.is_basic());
+    }
+    if ["assign_target", "mapmut", "reset"].contains(&role) {
+        cands.retain(|v| !v.is_shared_only());
     }
     let kinds: Vec<&'static str> = {
         let mut k: Vec<&'static str> = cands.iter().map(view_kind).collect();
@@ -658,9 +670,22 @@ fn step_fromiter(st: &mut St, g: &mut Gen, tape: usize) {
         n += elems(&co.shape);
         opts.push(format!("chain={}", co.name));
     }
-    let f = if rat_mode() && !st.heavy { g.rng.pick(&["id", "id", "konst", "lift"]).to_string() } else { g.rng.pick(&["id", "id", "sq", "aff", "konst", "lift"]).to_string() };
+    let mut f = if rat_mode() && !st.heavy { g.rng.pick(&["id", "id", "konst", "lift"]).to_string() } else { g.rng.pick(&["id", "id", "sq", "aff", "konst", "lift"]).to_string() };
+    // iteration with indexes: in row-major order and without a chained second iterator
+    if order == "rm" && opts.len() == 1 && g.rng.chance(1, 3) {
+        let via = pick_form(g, "c06.form", "fromiter", &["with_index", "into", "from_with_index"]);
+        opts.push(format!("via={}", via));
+        if g.rng.chance(1, 2) {
+            f = if rat_mode() && !st.heavy { "alt".to_string() } else { g.rng.pick(&["alt", "scale"]).to_string() };
+        }
+    } else {
+        g.count("c06.form.fromiter.plain");
+    }
     let f = if f == "lift" { format!("lift.{}", tape) } else { f };
     match f.split('.').next().unwrap() {
+        "alt" => {
+            consistent = consistent && (c.tape.is_none() || n == 1);
+        }
         "konst" => {
             tape_after = None;
             consistent = true;
@@ -753,6 +778,78 @@ fn step_reset(st: &mut St, g: &mut Gen, tape: usize) {
     g.count("c06.reset.without_clear");
     g.op(format!("reset {} via={}", operand_tok(&c, &v), via));
     st.load[tape] += elems(&c.shape);
+}
+
+/// one element of a container as a record (kept as a 0-dimensional tensor), in or out of range
+fn step_elem(st: &mut St, g: &mut Gen, tape: usize) {
+    let k = some_container(st, g, None, tape);
+    let c = st.conts[k].clone();
+    let kind = if c.is_matrix { "M" } else { "T" };
+    let d = c.shape.len();
+    // an ordering of the dimensions (tensors), the access flavour
+    let mut perm: Vec<usize> = (0..d).collect();
+    let access = if c.is_matrix { "matrix" } else { pick_form(g, "c06.form", "elem.access", &["index_by", "owned", "mut"]) };
+    if !c.is_matrix && g.rng.chance(2, 3) {
+        g.rng.shuffle(&mut perm);
+    }
+    let identity = (0..d).all(|i| perm[i] == i);
+    let v = if identity { ViewSpec::Own } else { ViewSpec::Acc(perm.clone()) };
+    let form = pick_form(g, "c06.form", &format!("elem.{}", kind), &["get", "try"]);
+    let conv = pick_form(g, "c06.form", "elem.from_record", &["val", "ref"]);
+    let out_of_range = d > 0 && g.rng.chance(1, 6);
+    let mut idx: Vec<usize> = perm.iter().map(|&p| g.rng.below(c.shape[p].1)).collect();
+    if out_of_range {
+        let j = g.rng.below(d);
+        idx[j] = c.shape[perm[j]].1 + g.rng.below(2);
+    }
+    g.count(&format!("c06.op.elem.{}.{}.{}", kind, access, if out_of_range { "out_of_range" } else { "in_range" }));
+    g.count(&format!("c06.elem.ordering.{}", if identity { "source_order" } else { "reordered" }));
+    let name = st.fresh_name();
+    g.op(format!("elem {} {} {} via={}.{}.{}", name, operand_tok(&c, &v), show_usizes(&idx), access, form, conv));
+    if !out_of_range {
+        let z = st.push(name.clone(), false, vec![], c.tape, true);
+        st.conts[z].level = c.level;
+        let a = operand_tok(&c, &ViewSpec::Own);
+        follow_derivs(st, g, &name, c.tape, &[(&c, a)]);
+    }
+}
+
+/// a 0-dimensional tensor to a `Record` and back
+fn step_scalar(st: &mut St, g: &mut Gen, tape: usize) {
+    let ids: Vec<usize> = st.live_ids().into_iter().filter(|&k| st.conts[k].shape.is_empty() && !st.conts[k].is_matrix).collect();
+    if ids.is_empty() {
+        return step_elem(st, g, tape);
+    }
+    let c = st.conts[*g.rng.pick(&ids)].clone();
+    let a = pick_form(g, "c06.form", "scalar.to_record", &["val", "ref"]);
+    let b = pick_form(g, "c06.form", "scalar.from_record", &["val", "ref"]);
+    let name = st.fresh_name();
+    g.count("c06.op.scalar");
+    g.op(format!("scalar {} {} via={}.{}", name, c.name, a, b));
+    let z = st.push(name, false, vec![], c.tape, true);
+    st.conts[z].level = c.level;
+}
+
+/// two elements exchanged in place, then the layout of the container as a source
+fn step_swap(st: &mut St, g: &mut Gen, tape: usize) {
+    let k = some_container(st, g, None, tape);
+    let c = st.conts[k].clone();
+    let pick = |g: &mut Gen, bad: bool| -> Vec<usize> {
+        let mut i: Vec<usize> = c.shape.iter().map(|d| g.rng.below(d.1)).collect();
+        if bad {
+            let j = g.rng.below(i.len());
+            i[j] = c.shape[j].1;
+        }
+        i
+    };
+    let bad = g.rng.chance(1, 8);
+    let (i, j) = (pick(g, false), pick(g, bad));
+    g.count(&format!("c06.op.swap.{}.{}", if c.is_matrix { "M" } else { "T" }, if bad { "out_of_range" } else { "in_range" }));
+    g.op(format!("swap {} {} {}", c.name, show_usizes(&i), show_usizes(&j)));
+    if g.rng.chance(1, 2) {
+        g.count("c06.op.layout");
+        g.op(format!("layout {}", c.name));
+    }
 }
 
 fn step_derivs(st: &mut St, g: &mut Gen, tape: usize) {
@@ -856,7 +953,20 @@ fn gen_case(g: &mut Gen, rat: bool) {
             st.allow_level = if rat && heavy { 0 } else { 1 };
         };
         set(&mut st, heavy);
-        if roll < 18 {
+        // 0-dimensional tensors take part in the elementwise operations, in iteration and in
+        // derivative requests
+        st.allow_t0 = roll < 36 || (71..80).contains(&roll) || (83..89).contains(&roll);
+        if g.rng.chance(1, 12) {
+            st.allow_t0 = true;
+            match g.rng.below(3) {
+                0 => step_elem(&mut st, g, tape),
+                1 => step_scalar(&mut st, g, tape),
+                _ => {
+                    st.allow_t0 = false;
+                    step_swap(&mut st, g, tape)
+                }
+            }
+        } else if roll < 18 {
             step_unary(&mut st, g, tape);
         } else if roll < 36 {
             step_binary(&mut st, g, tape, false);
@@ -904,6 +1014,7 @@ fn gen_case(g: &mut Gen, rat: bool) {
     // final derivatives on every tape
     st.heavy = false;
     st.allow_level = 1;
+    st.allow_t0 = true;
     for t in 0..ntapes {
         if st.derivs < 4 {
             step_derivs(&mut st, g, t);
@@ -1034,6 +1145,125 @@ fn gen_every_form(g: &mut Gen) {
             g.op("neg x0 x via=ref".into());
             g.op(format!("mapmut x0 fn={} via={}", f, via));
             g.op("derivs x0 wrt=x via=all".into());
+        }
+    }
+}
+
+/// Element access as a record, systematically: every access flavour × `get`/`try` × both
+/// `From<Record>` forms × every ordering of the dimensions (D = 1, 2, 3) and matrices, every
+/// in-range index and the out-of-range neighbours, each in-range record differentiated; the four
+/// `Record` ↔ 0-dimensional tensor conversions; element swaps; layouts; renamed views.
+fn gen_element_access(g: &mut Gen) {
+    let accesses = ["index_by", "owned", "mut"];
+    let mut n = 0usize;
+    for (shape, perms) in [
+        ("a:3", vec![vec![0]]),
+        ("a:2,b:3", vec![vec![0, 1], vec![1, 0]]),
+        ("a:2,b:1,c:2", permutations(3)),
+    ] {
+        let sh = parse_shape(shape);
+        for perm in perms {
+            for var in [true, false] {
+                g.op("@ tapes 1 fp".into());
+                let total: usize = sh.iter().map(|d| d.1).product();
+                let vals = values(g, total);
+                if var {
+                    g.op(format!("vars x T {} {} t=0", shape, vals));
+                    g.op("muln y x 3 via=ref_ref".into());
+                } else {
+                    g.op(format!("consts y T {} {}", shape, vals));
+                }
+                let identity = (0..perm.len()).all(|i| perm[i] == i);
+                let tok = if identity { "y".to_string() } else { format!("y/acc.{}", perm.iter().map(|p| p.to_string()).collect::<Vec<_>>().join(".")) };
+                let lens: Vec<usize> = perm.iter().map(|&p| sh[p].1).collect();
+                // every index with coordinates 0..=len
+                let mut idxs: Vec<Vec<usize>> = vec![vec![]];
+                for &l in &lens {
+                    idxs = idxs.iter().flat_map(|p| (0..=l).map(move |i| { let mut q = p.clone(); q.push(i); q })).collect();
+                }
+                for idx in idxs {
+                    let access = accesses[n % 3];
+                    let form = ["get", "try"][(n / 3) % 2];
+                    let conv = ["val", "ref"][(n / 6) % 2];
+                    n += 1;
+                    let inr = idx.iter().zip(lens.iter()).all(|(i, l)| i < l);
+                    g.count(&format!("c06.forms.T.elem.{}.{}.{}", access, form, if inr { "in_range" } else { "out_of_range" }));
+                    g.op(format!("elem e{} {} {} via={}.{}.{}", n, tok, show_usizes(&idx), access, form, conv));
+                    if inr && var {
+                        g.op(format!("derivs e{} wrt=x via={}", n, if n % 2 == 0 { "all" } else { "for" }));
+                    }
+                }
+            }
+        }
+    }
+    for var in [true, false] {
+        g.op("@ tapes 1 fp".into());
+        let vals = values(g, 6);
+        if var {
+            g.op(format!("vars x M r:2,c:3 {} t=0", vals));
+            g.op("subsw y x 5 via=ref_ref".into());
+        } else {
+            g.op(format!("consts y M r:2,c:3 {}", vals));
+        }
+        for r in 0..=2 {
+            for c in 0..=3 {
+                for form in ["get", "try"] {
+                    n += 1;
+                    let inr = r < 2 && c < 3;
+                    g.count(&format!("c06.forms.M.elem.matrix.{}.{}", form, if inr { "in_range" } else { "out_of_range" }));
+                    g.op(format!("elem e{} y {},{} via=matrix.{}.{}", n, r, c, form, if n % 2 == 0 { "val" } else { "ref" }));
+                    if inr && var {
+                        g.op(format!("derivs e{} wrt=x via=all", n));
+                    }
+                }
+            }
+        }
+    }
+    // Record <-> 0-dimensional tensor, the records then take part in operations
+    for a in ["val", "ref"] {
+        for b in ["val", "ref"] {
+            g.count(&format!("c06.forms.T.scalar.{}.{}", a, b));
+            g.op("@ tapes 1 fp".into());
+            let vals = values(g, 2);
+            g.op(format!("vars x T a:2 {} t=0", vals));
+            g.op("elem p x 0 via=index_by.get.val".into());
+            g.op("elem q x 1 via=mut.try.ref".into());
+            g.op(format!("scalar p2 p via={}.{}", a, b));
+            g.op("emul z p2 q".into());
+            g.op("sin s z via=ref".into());
+            g.op("derivs s wrt=x,p,q via=all".into());
+            g.op("fromiter v s to=T shape=a:1 order=rm fn=sq via=with_index".into());
+            g.op("derivs v wrt=x via=for".into());
+        }
+    }
+    // elements moved inside a container, its layout as a source, renamed / re-indexed views
+    for kind in ["T", "M"] {
+        g.count(&format!("c06.forms.{}.swap", kind));
+        g.op("@ tapes 1 fp".into());
+        let vals = values(g, 4);
+        let shape = if kind == "T" { "a:2,b:2" } else { "r:2,c:2" };
+        g.op(format!("vars x {} {} {} t=0", kind, shape, vals));
+        g.op("neg y x via=ref".into());
+        g.op("swap y 0,1 1,0".into());
+        g.op("swap y 0,0 2,0".into());
+        g.op("layout y".into());
+        g.op("derivs y wrt=x via=all".into());
+        g.op("emul z y x".into());
+        g.op("derivs z wrt=x via=for".into());
+        if kind == "T" {
+            g.count("c06.forms.T.rename_view");
+            g.op("exp yr y/rn.p.q via=ref".into());
+            g.op("add w yr x/rn.p.q via=ref_ref".into());
+            g.op("derivs w wrt=x,y/rn.b.a via=all".into());
+            g.op("matmul m y/rn.p.q x via=ref_ref".into());
+            g.op("add bad y/rn.p.q x via=ref_ref".into());
+            g.op("fromiter f y/acc.1.0 to=T shape=a:4 order=rm fn=scale via=into".into());
+            g.op("fromiter f2 y to=M shape=r:2,c:2 order=rm fn=alt via=from_with_index".into());
+            g.op("derivs f wrt=x via=all".into());
+        } else {
+            g.op("fromiter f y to=M shape=r:1,c:4 order=rm fn=scale via=with_index".into());
+            g.op("fromiter f2 y/rev.1.0 to=T shape=a:4 order=rm fn=scale via=into".into());
+            g.op("derivs f2 wrt=x via=all".into());
         }
     }
 }
@@ -1251,6 +1481,7 @@ fn check_catalogue(g: &mut Gen) {
 pub fn gen(g: &mut Gen) {
     check_catalogue(g);
     gen_every_form(g);
+    gen_element_access(g);
     gen_constant_operand_matmul(g);
     gen_cross_tape(g);
     gen_reset_cycles(g);
